@@ -35,7 +35,7 @@ of each table are certified, so a silently shrinking coverage breaks the build. 
 `IsDistance n H (min Lx (Ly·Lz))`; `Properties/C17RhombicToricCode.lean` (all `L_i` even `≥ 2`):
 `IsDistance n H (min Lx (min Ly Lz))`; `Properties/C17RhombicPlanarCode.lean` (`Lx, Ly ≥ 2`,
 `Lz ≥ 1`): `IsDistance n H (min (Lx·Ly + (Lx−1)(Ly−1)) Lz)`; `Properties/C17Color488Code.lean`
-(`Lx = Ly = L ≥ 1`): `IsDistance (8L²) H (2L)` — and `code.d` equals that value for every lattice
+(`Lx, Ly ≥ 1`): `IsDistance (8·Lx·Ly) H (min (2Lx) (2Ly))` — and `code.d` equals that value for every lattice
 size, by packing with lattice translates; the same for every DEFORMED code of these classes,
 through the generic `distance_deformation_invariant` below (a per-qubit permutation of {X, Y, Z}
 changes neither the distance nor the reported distance of ANY code).  Missing for the full
